@@ -528,3 +528,53 @@ def ctx_stmt(node):
     while n is not None and not isinstance(n, ast.stmt):
         n = getattr(n, '_parent', None)
     return n
+
+
+# The density nodes are wired with node.parents: the order in which the graph reports positional
+# parents is part of "the density given its parents' values" (= C14-g).
+@obligation('C08-j', 'T5 T8', 'the graph reports positional parents in declaration order (shared '
+            'with C14-g)', floor=4,
+            necessary='parents reported in insertion order after become() / copy() evaluate the '
+                      'conditional density with swapped distribution arguments')
+def c08_j(ctx):
+    from . import C14 as _C14
+    return _C14.c14_g(ctx)
+
+
+@obligation('C08-k', 'T7', 'the gradient of row i is computed from row i alone, for every row',
+            floor=3,
+            necessary='a test over the whole batch (one row outside the support) that skips or '
+                      'zeroes the differentiation makes matrix input disagree with the same '
+                      'points evaluated one by one')
+def c08_k(ctx):
+    mp = ctx.cls(MP)
+    g = ctx.own_method(mp, 'gradient_logpdf')
+    ex = ctx.ex(g)
+    cs = ctx.calls(g, 'numgrad(*_)')
+    if len(cs) != 1:
+        raise AnchorMissing('numgrad call in gradient_logpdf')
+    c = cs[0]
+    lp = enclosing_loop(c)
+    st = c
+    while not isinstance(st, ast.stmt):
+        st = st._parent
+    # the loop runs over all rows and is entered unconditionally
+    ok = isinstance(lp, ast.For) and match_any(ex.term(lp.iter), (
+        'range(len(_g))', 'range(_x.shape[0])', 'range(len(_x))')) is not None
+    ctx.check(ok, g, 'one differentiation per row', 'for i in range(len(grads))',
+              'the numerical differentiation does not run once per row', fn=g, node=lp or c)
+    conds = [t for (t, pol, tast) in ctx.guards(g, st)
+             if lp is None or not _inside(tast, lp)]
+    conds = [t for t in conds if t[0] != 'bool']
+    ctx.check(not conds, g, 'every row is differentiated, whatever the other rows are',
+              'the row loop is not under a batch-level condition',
+              'the per-row differentiation is skipped under the batch-level condition {}: one row '
+              'changes the gradient of all others'.format([show(t)[:50] for t in conds][:2]),
+              fn=g, node=st)
+    # row i: point x[i], result grads[i]
+    tgt = st.targets[0] if isinstance(st, ast.Assign) else None
+    a1 = ex.term(c.args[1]) if len(c.args) > 1 else None
+    ok = tgt is not None and isinstance(tgt, ast.Subscript) and a1 is not None and \
+        a1[0] == 'sub' and a1[2] == ex.term(tgt.slice) and a1[2][0] == 'elem'
+    ctx.check(ok, g, 'row i of the result from row i of the input', 'grads[i] = numgrad(.., x[i])',
+              'the gradient stored in row i is not computed at row i of the input', fn=g, node=st)
